@@ -297,11 +297,15 @@ def run_case(data):
         elif op == 'close':
             # debug data of any length is well-typed; 8 + 16376 bytes fill a default-sized frame exactly
             extra = ch.pick([None, b'', b'bye', b'bye', b'd' * 16376, b'd' * 16377, b'd' * 20000])
+            alive_before = bool(extra) and len(extra) > 16376 and not m.closed and connection_alive()
             o = s.call('close_connection', ch.pick([0, 1, 2**32 - 1]), extra, ch.pick([None, 0, sid]))
             r.step('close_connection', o.brief())
             if o.ok:
                 m.closed = 'sent-goaway'
             check('close_connection', None, o)
+            if alive_before and not o.ok and o.exc_name == 'FrameTooLargeError' and not connection_alive():
+                # refused for the size of its debug data, not by any state machine: the connection is what it was
+                w.violate('refused-close_connection-closed-the-connection', repr(o.exc)[:100])
         elif op == 'settings':
             new = ch.pick([{4: 100}, {5: 16384}, {2: 2}, {4: 2**31}, {5: 1}, {3: 0}, {0x7f: 1}, {}, {1: 0, 8: 5},
                            {5: 32768}, {5: 2**24 - 1}])
